@@ -41,6 +41,12 @@ def literal_keys_read(f, dictname="results"):
 
 
 def run(ctx):
+    # 'reading a stored iteration never alters the simulation' and restores exactly iteration i: no memo of what was read survives a later save
+    from ..shared import memo_rule as _memo_rule, cached_param_rule as _cached_param_rule
+
+    _scope = ("EasyFEA.Simulations",)
+    _memo_rule(ctx, "R15.8", scope=lambda f: f.module.name.startswith(_scope), min_instances=0)
+    _cached_param_rule(ctx, "R15.9", min_instances=20)
     repo = ctx.repo
     ctx.level = "other"
     ctx.explanation = (
